@@ -1861,14 +1861,14 @@ impl Sessions {
             }
 
             // Ensure the currently selected id doesn't match any existing exchange
+            // (in particular not one of our own, still live initiator exchanges, once the
+            // 16-bit counter has wrapped)
             if self
                 .sessions
                 .iter()
                 .flat_map(|sess| sess.exchanges.iter())
                 .filter_map(|exch| exch.as_ref())
-                .all(|exch| {
-                    !matches!(exch.role, Role::Responder(_)) || exch.exch_id != next_exch_id
-                })
+                .all(|exch| exch.exch_id != next_exch_id)
             {
                 break;
             }
